@@ -113,6 +113,11 @@ impl Stack {
         self.values.truncate(self.values.len() - n);
     }
 
+    #[cfg(feature = "verif_hooks")]
+    pub(crate) fn verif_len(&self) -> usize {
+        self.values.len()
+    }
+
     pub fn try_pop(&mut self) -> Option<Value> {
         self.values.pop()
     }
@@ -371,6 +376,18 @@ impl<'env> Context<'env> {
     #[track_caller]
     pub fn pop_frame(&mut self) -> Frame<'env> {
         self.stack.pop().unwrap()
+    }
+
+    /// Number of frames on this context.
+    #[cfg(feature = "verif_hooks")]
+    pub(crate) fn verif_frame_count(&self) -> usize {
+        self.stack.len()
+    }
+
+    /// Is the topmost frame a loop frame?
+    #[cfg(feature = "verif_hooks")]
+    pub(crate) fn verif_top_is_loop(&self) -> bool {
+        self.stack.last().map_or(false, |x| x.current_loop.is_some())
     }
 
     /// Returns the root locals (exports)
